@@ -14,7 +14,7 @@ from typing import Dict, List, Set
 from sa.core.common import AnalysisError, Collector
 from sa.core.effects import Effects
 from sa.core.paths import enumerate_paths
-from sa.core.pyfacts import Repo, call_name, f_cls, src, walk_no_nested
+from sa.core.pyfacts import Repo, call_name, f_cls, src, walk_no_nested, ordk, ordk_end
 
 EXPLANATION = (
     "Effect analysis over all Python modules of func_adl_xAOD: R1 inventory of surviving state (module-level "
@@ -454,13 +454,14 @@ def _reinit_at_entry(ex, cell: str, ws) -> bool:
             v = st.value
             if (isinstance(v, (ast.Dict, ast.List, ast.Set)) and not getattr(v, "keys", None) and not getattr(v, "elts", None)) \
                     or (isinstance(v, ast.Call) and call_name(v) in ("dict", "list", "set", "defaultdict")):
-                fresh_at = st.lineno
+                fresh_at = st
                 break
     if fresh_at is None:
         return False
-    others = [w for w in ws if w.node.lineno != fresh_at]
-    reads_before = [n for n in ast.walk(f.node) if isinstance(n, ast.Attribute) and src(n) == f"self.{attr}" and n.lineno < fresh_at]
-    return all(w.node.lineno > fresh_at for w in others) and not reads_before
+    lo, hi = ordk(fresh_at), ordk_end(fresh_at)
+    others = [w for w in ws if not (lo <= ordk(w.node) <= hi)]
+    reads_before = [n for n in ast.walk(f.node) if isinstance(n, ast.Attribute) and src(n) == f"self.{attr}" and ordk(n) < lo]
+    return all(ordk(w.node) > hi for w in others) and not reads_before
 
 
 def _is_const_call(node) -> bool:
